@@ -179,7 +179,7 @@ func ontRound(t *testing.T, r *kit.Run, n int, cases int, thresholds map[int]int
 			r.Count("ont_honest_refused", 1)
 		}
 		if acc && k == 0 && n >= 1 {
-			r.Violation("ont:crosschainmsg-accepted-without-signers", fmt.Sprintf("N=%d: a message with no signer at all was accepted", n), replay)
+			viol(r, "ont:crosschainmsg-accepted-without-signers", fmt.Sprintf("N=%d: a message with no signer at all was accepted", n), replay)
 		}
 		_ = distinct
 	}
@@ -278,7 +278,7 @@ func ontRound(t *testing.T, r *kit.Run, n int, cases int, thresholds map[int]int
 		if acc {
 			r.Count("ont_accepted", 1)
 			if distinct < T {
-				r.Violation(violationKeyOnt(c.kinds),
+				viol(r, violationKeyOnt(c.kinds),
 					fmt.Sprintf("ont message accepted via %s with %d listed bookkeeper(s) but only %d distinct tracked valid signer(s); tracked set N=%d needs %d (honest all-distinct threshold)", c.via, listed, distinct, n, T), replay)
 			} else if shape == "honest-quorum-variants" && r.Get("ont_sampled") == 0 {
 				r.Count("ont_sampled", 1)
@@ -437,7 +437,7 @@ func neoRound(t *testing.T, r *kit.Run, n, m, cases int) {
 			r.Count("neo_accepted", 1)
 			switch {
 			case script != set:
-				r.Violation("neo:stateroot-wrong-script-accepted", fmt.Sprintf("state root accepted with a verification script (%s) that is not the tracked consensus script", shape), replay)
+				viol(r, "neo:stateroot-wrong-script-accepted", fmt.Sprintf("state root accepted with a verification script (%s) that is not the tracked consensus script", shape), replay)
 			case distinct < m:
 				key := "neo:stateroot-below-threshold-accepted"
 				for _, k := range kinds {
@@ -445,7 +445,7 @@ func neoRound(t *testing.T, r *kit.Run, n, m, cases int) {
 						key = "neo:stateroot-duplicate-signer-counted"
 					}
 				}
-				r.Violation(key, fmt.Sprintf("state root accepted with %d distinct committee signer(s), script needs %d of %d", distinct, m, n), replay)
+				viol(r, key, fmt.Sprintf("state root accepted with %d distinct committee signer(s), script needs %d of %d", distinct, m, n), replay)
 			default:
 				if r.Get("neo_sampled") == 0 {
 					r.Count("neo_sampled", 1)
